@@ -90,7 +90,7 @@ def execute(case):
         try:
             inter.add(cl.run())
         except Violation as v:
-            out.update(status="violation", oracle=v.oracle, message=v.message, env_index=i, details=v.details)
+            out.update(status="violation", oracle=v.oracle, message=v.message, env_index=i, details=v.details, tape=[list(x) for x in tape.log])
             return out
         if sub.mem != ref.mem:
             bad = sorted(k for k in ref.mem if sub.mem.get(k) != ref.mem[k])[:3]
